@@ -15,9 +15,10 @@ import PygProofs.Lemmas.DateStrLemmas
 import PygProofs.Lemmas.DateTextLemmas
 import PygProofs.Lemmas.AmbiguityLemmas
 import PygProofs.Lemmas.SqueezeLemmas
+import PygProofs.Lemmas.NpDateLemmas
 
 namespace Pyg.Props.C04
-open Pyg Pyg.Bump Pyg.DateParse Pyg.Gen Pyg.Greg
+open Pyg Pyg.Bump Pyg.DateParse Pyg.Gen Pyg.Greg Pyg.NpDate
 
 /-! ### month / day overflow: `dt(y, m, d)` (generated `ym`, `_ymd`) -/
 
@@ -681,6 +682,128 @@ theorem dt2str_roundtrip_str (t : Int) (h0 : mkDate 1000 1 1 ≤ t) (h1 : t < MA
 
 -- non-vacuity: 2000-01-10T20:30:40.000050 (the docstring example of dt2str)
 example : dt2str 63083133040000050 = "2000-01-10T20:30:40.000050" ∧ mkDate 1000 1 1 ≤ 63083133040000050 ∧ (63083133040000050 : Int) < MAXUS := by
+  decide +kernel
+
+/-! ### numpy / pandas timestamps (`np2dt`, lines 257-289; PygModel/NpDate.lean)
+
+`np2dt` is `t.astype(datetime.datetime)` plus a class dispatch; the dispatch is GENERATED (`Gen.np2dt`, used through
+`np2dt_dispatch`), numpy's and pandas' conversions are hand-modelled as integer arithmetic on the datetime64 `(value, unit)` and
+sampled by correspondence (ops `np`, `np64`, `pd`, `pdns`).  `dtOfNp t u` = `dt(np.datetime64(t, u))`. -/
+
+/-- `dt(np.datetime64(t, unit))` for EVERY datetime `t` (year 1..9999, to the microsecond) and every fixed-length unit that divides
+a day — D, h, m, s, ms, us —: `t` truncated to the unit (`t - t % k`, `k` = microseconds per unit).  For D numpy hands back a
+`datetime.date`, which the generated dispatch rebuilds as a datetime at midnight; for the finer units the datetime is returned as is. -/
+theorem np2dt_roundtrip (u : NpUnit) (k : Int) (hk : u.micros = some k) (hW : u ≠ .W) (t : Int) (h0 : 0 ≤ t) (h1 : t < MAXUS) :
+    dtOfNp t u = some (.datetime (t - t % k)) := by
+  have hE := EPOCH_val
+  cases u <;> simp only [NpUnit.micros, Option.some.injEq, reduceCtorEq] at hk <;> try (exact absurd rfl hW)
+  all_goals subst hk
+  all_goals simp only [dtOfNp, dt64Of, NpUnit.micros, Option.bind_some]
+  · -- D: a date, rebuilt at midnight
+    have hm : (t - EPOCH) % 86400000000 = t % 86400000000 := by omega
+    have hi := instant_fixed t 86400000000 .D rfl (by omega) (by omega) h1
+    rw [dtNp_date _ _ hi rfl, hm, dropTime_midnight _ (by omega) (by omega) (by unfold DAYUS; omega)]
+  · have hm : (t - EPOCH) % 3600000000 = t % 3600000000 := by omega
+    have hi := instant_fixed t 3600000000 .h rfl (by omega) (by omega) h1
+    rw [dtNp_datetime _ _ hi rfl, hm]
+  · have hm : (t - EPOCH) % 60000000 = t % 60000000 := by omega
+    have hi := instant_fixed t 60000000 .m rfl (by omega) (by omega) h1
+    rw [dtNp_datetime _ _ hi rfl, hm]
+  · have hm : (t - EPOCH) % 1000000 = t % 1000000 := by omega
+    have hi := instant_fixed t 1000000 .s rfl (by omega) (by omega) h1
+    rw [dtNp_datetime _ _ hi rfl, hm]
+  · have hm : (t - EPOCH) % 1000 = t % 1000 := by omega
+    have hi := instant_fixed t 1000 .ms rfl (by omega) (by omega) h1
+    rw [dtNp_datetime _ _ hi rfl, hm]
+  · have hm : (t - EPOCH) % 1 = t % 1 := by omega
+    have hi := instant_fixed t 1 .us rfl (by omega) (by omega) h1
+    rw [dtNp_datetime _ _ hi rfl, hm]
+
+
+/-- weeks: numpy counts them from 1970-01-01 (a Thursday), so the truncation is to the last Thursday; from 0001-01-04 on (the week of
+0001-01-01 starts in year 0, which `datetime` cannot represent) -/
+theorem np2dt_roundtrip_week (t : Int) (h0 : 3 * DAYUS ≤ t) (h1 : t < MAXUS) :
+    dtOfNp t .W = some (.datetime (t - (t - EPOCH) % 604800000000)) := by
+  have hE := EPOCH_val
+  unfold DAYUS at h0
+  simp only [dtOfNp, dt64Of, NpUnit.micros, Option.bind_some]
+  have hi := instant_fixed t 604800000000 .W rfl (by omega) (by omega) h1
+  rw [dtNp_date _ _ hi rfl, dropTime_midnight _ (by omega) (by omega) (by unfold DAYUS; omega)]
+
+/-- calendar months and years (`datetime64[M]`, `[Y]`): the first day of the month / year of `t` -/
+theorem np2dt_roundtrip_month (t : Int) (h0 : 0 ≤ t) (h1 : t < MAXUS) :
+    dtOfNp t .M = some (.datetime (mkDate (ymdOf t).y (ymdOf t).m 1)) ∧ dtOfNp t .Y = some (.datetime (mkDate (ymdOf t).y 1 1)) := by
+  have v := (ymdOf_valid t h0 h1).1
+  have vv := first_of_month_valid t h0 h1
+  unfold Valid at v
+  constructor
+  · have hi : (Dt64.mk ((((ymdOf t).y : Int) - 1970) * 12 + (((ymdOf t).m : Int) - 1)) .M).instant = some (mkDate (ymdOf t).y (ymdOf t).m 1) := by
+      simp only [Dt64.instant]
+      have e1 : (1970 : Int) + ((((ymdOf t).y : Int) - 1970) * 12 + (((ymdOf t).m : Int) - 1)) / 12 = (ymdOf t).y := by omega
+      have e2 : ((((ymdOf t).y : Int) - 1970) * 12 + (((ymdOf t).m : Int) - 1)) % 12 + 1 = (ymdOf t).m := by omega
+      rw [e1, e2, if_pos (by omega)]; simp
+    simp only [dtOfNp, dt64Of, Option.bind_some]
+    rw [dtNp_date _ _ hi rfl, dropTime_mkDate _ _ _ vv.1]
+  · have hi : (Dt64.mk (((ymdOf t).y : Int) - 1970) .Y).instant = some (mkDate (ymdOf t).y 1 1) := by
+      simp only [Dt64.instant]
+      have e1 : (1970 : Int) + (((ymdOf t).y : Int) - 1970) = (ymdOf t).y := by omega
+      rw [e1, if_pos (by omega)]; simp
+    simp only [dtOfNp, dt64Of, Option.bind_some]
+    rw [dtNp_date _ _ hi rfl, dropTime_mkDate _ _ _ vv.2]
+
+/-- nanoseconds, where representable (the count fits int64): numpy hands back an int, the dispatch answers `pd.Timestamp(x)`, the
+Timestamp of that very instant — Python's `==` with `t` holds (`eqDatetime`: equal instants) -/
+theorem np2dt_roundtrip_ns (t : Int) (h : -9223372036854775808 < (t - EPOCH) * 1000 ∧ (t - EPOCH) * 1000 < 9223372036854775808) :
+    dtOfNp t .ns = some (.stamp ((t - EPOCH) * 1000)) ∧ (PyTime.stamp ((t - EPOCH) * 1000)).eqDatetime t := by
+  constructor
+  · simp only [dtOfNp, dt64Of, if_pos h, Option.bind_some]
+    exact dtNp_ns _ h
+  · simp only [PyTime.eqDatetime, PyTime.instantNs, Option.some.injEq]; omega
+
+/-- every datetime from 1677-09-22 to 2262-04-10 has a `datetime64[ns]` (the int64 range is 1677-09-21T00:12:43.145224193 ..
+2262-04-11T23:47:16.854775807) -/
+theorem ns_representable (t : Int) (h0 : mkDate 1677 9 22 ≤ t) (h1 : t < mkDate 2262 4 11) :
+    -9223372036854775808 < (t - EPOCH) * 1000 ∧ (t - EPOCH) * 1000 < 9223372036854775808 := by
+  have hE := EPOCH_val
+  have a : mkDate 1677 9 22 = 52912310400000000 := by decide +kernel
+  have b : mkDate 2262 4 11 = 71358883200000000 := by decide +kernel
+  omega
+
+/-- `dt(pd.Timestamp(t))`: a Timestamp is a datetime, `dt` returns it unchanged, it is the same instant as `t` (`==`), and `ymd` of
+it is midnight of `t`'s day — for every `t` -/
+theorem pandas_roundtrip (t : Int) :
+    dtStamp (stampOf t) = some (stampOf t) ∧ (stampOf t).eqDatetime t ∧ ymdPy (stampOf t) = some (dropTime t) := by
+  refine ⟨rfl, ?_, ?_⟩
+  · simp only [stampOf, PyTime.eqDatetime, PyTime.instantNs, Option.some.injEq]; omega
+  · simp only [stampOf, ymdPy, Option.some.injEq]; congr 1; omega
+
+/-- the clause as the property states it: for every `t` of 1900-01-01 .. 2299-12-31 (to the microsecond) `dt` of the numpy timestamp
+`np.datetime64(t, u)`, u ∈ {D, h, m, s, ms, us}, is `t` truncated to `u` — in particular `t` itself for `us`, and for `s` / `ms` / … when
+`t` has no finer part — and for `ns` (t before 2262-04-11) it is a Timestamp equal to `t` -/
+theorem numpy_timestamp (t : Int) (h0 : mkDate 1900 1 1 ≤ t) (h1 : t < mkDate 2300 1 1) :
+    dtOfNp t .us = some (.datetime t)
+    ∧ (∀ u k, u.micros = some k → u ≠ .W → t % k = 0 → dtOfNp t u = some (.datetime t))
+    ∧ (t < mkDate 2262 4 11 → ∃ x, dtOfNp t .ns = some x ∧ x.eqDatetime t) := by
+  have a : mkDate 1900 1 1 = 59926608000000000 := by decide +kernel
+  have b : mkDate 2300 1 1 = 72549388800000000 := by decide +kernel
+  have c : mkDate 1677 9 22 = 52912310400000000 := by decide +kernel
+  have hr : 0 ≤ t ∧ t < MAXUS := by unfold MAXUS; omega
+  refine ⟨?_, ?_, ?_⟩
+  · have := np2dt_roundtrip .us 1 rfl (by decide) t hr.1 hr.2
+    rw [this]; congr 2; omega
+  · intro u k hk hW hz
+    rw [np2dt_roundtrip u k hk hW t hr.1 hr.2, hz]; simp
+  · intro h2
+    have := np2dt_roundtrip_ns t (ns_representable t (by omega) h2)
+    exact ⟨_, this.1, this.2⟩
+
+example : dtOfNp 63083133040000050 .ms = some (.datetime 63083133040000000) ∧ dtOfNp 63083133040000050 .D = some (.datetime 63083059200000000)
+    ∧ dtOfNp 63083133040000050 .W = some (.datetime 63082713600000000) ∧ dtOfNp 63083133040000050 .M = some (.datetime (mkDate 2000 1 1))
+    ∧ dtOfNp 63083133040000050 .ns = some (.stamp 947536240000050000) := by decide +kernel
+/-- no `datetime64[ns]` of 2299-12-31 exists (numpy wraps the count around silently): outside "where representable" -/
+example : dt64Of (mkDate 2299 12 31) .ns = none := by decide +kernel
+/-- a Timestamp between two microseconds is not equal to either datetime (outside the property: `t` is a datetime) -/
+example : dtNp ⟨947536240000050001, .ns⟩ = some (.stamp 947536240000050001) ∧ ¬ (PyTime.stamp 947536240000050001).eqDatetime 63083133040000050 := by
   decide +kernel
 
 /-! ### the Gregorian table the clauses above rest on -/
